@@ -140,8 +140,8 @@ func main() {
 			marker("op/%d/begin/file/%d", i, t)
 			err := osutil.AtomicWriteFile(tname, data, 0644, flags)
 			if err != nil {
-				fmt.Fprintln(os.Stderr, err)
-				os.Exit(2)
+				marker("op/%d/failed", i)
+				continue
 			}
 			marker("op/%d/end/%d", i, len(data))
 		case 3: // AtomicWrite from a reader that delivers small chunks
@@ -154,8 +154,8 @@ func main() {
 			marker("op/%d/begin/file/%d", i, t)
 			err := osutil.AtomicWrite(targets[t], &chunkReader{data: append([]byte(nil), data...), chunk: 1 + r.n(9000)}, 0600, flags)
 			if err != nil {
-				fmt.Fprintln(os.Stderr, err)
-				os.Exit(2)
+				marker("op/%d/failed", i)
+				continue
 			}
 			marker("op/%d/end/%d", i, len(data))
 		case 4: // AtomicFile used directly: several writes, then Commit
@@ -169,21 +169,28 @@ func main() {
 			}
 			rd := bytes.NewReader(data)
 			buf := make([]byte, 1+r.n(20000))
+			failed := false
 			for {
 				n, rerr := rd.Read(buf)
 				if n > 0 {
 					if _, err := af.Write(buf[:n]); err != nil {
-						fmt.Fprintln(os.Stderr, err)
-						os.Exit(2)
+						failed = true
+						break
 					}
 				}
 				if rerr != nil {
 					break
 				}
 			}
-			if err := af.Commit(); err != nil {
-				fmt.Fprintln(os.Stderr, err)
-				os.Exit(2)
+			if !failed {
+				if err := af.Commit(); err != nil {
+					failed = true
+				}
+			}
+			if failed {
+				af.Cancel()
+				marker("op/%d/failed", i)
+				continue
 			}
 			marker("op/%d/end/%d", i, len(data))
 		}
